@@ -295,6 +295,8 @@ def _get(ev, path):
     for k in path.split("."):
         if isinstance(cur, dict) and k in cur:
             cur = cur[k]
+        elif isinstance(cur, list) and k.lstrip("-").isdigit() and -len(cur) <= int(k) < len(cur):
+            cur = cur[int(k)]
         else:
             return None
     return cur
